@@ -26,6 +26,11 @@ def _run(mod, prop, repo, tier):
         mod.run(repo, rep, tier)
     except AnalysisError as e:
         err = e
+    except Exception as e:  # noqa: BLE001 -- a rule that trips over a shape it does not know is an unreadable shape, not a verdict
+        import traceback
+        tb = traceback.extract_tb(e.__traceback__)
+        where = f"{tb[-1].filename.rsplit('/', 1)[-1]}:{tb[-1].lineno}" if tb else "?"
+        err = AnalysisError(f"internal error in a rule ({type(e).__name__}: {e} at {where})")
     return rep, err
 
 
